@@ -287,7 +287,7 @@ class Scene:
         """
 
         # Determine the local wind vector for setting the state of the aircraft
-        aircraft_position = np.array(state.get("position", [0.0, 0.0, 0.0]))
+        aircraft_position = import_value("position", state, self._unit_sys, [0.0, 0.0, 0.0])
         v_wind = self._get_wind(aircraft_position)
 
         # Create and store the aircraft object
@@ -1559,7 +1559,7 @@ class Scene:
                 raise IOError("Aircraft name must be specified if there is more than one aircraft in the scene.")
 
         # Determine wind velocity
-        aircraft_position = np.array(state.get("position", [0.0, 0.0, 0.0]))
+        aircraft_position = import_value("position", state, self._unit_sys, [0.0, 0.0, 0.0])
         v_wind = self._get_wind(aircraft_position)
 
         # Set state
